@@ -48,11 +48,22 @@ Theorem C13_ts_query_parser_has_url : forall sc sv md,
   mem_str (s "params") (ts_route_consts sc sv md) = true -> mem_str (s "url") (ts_route_consts sc sv md) = true.
 Proof. exact ts_query_parser_has_url. Qed.
 Print Assumptions C13_ts_query_parser_has_url.
-Theorem C13_ts_server_loads_always : forall sc fl, ts_server_loads sc fl = true.
-Proof. exact ts_server_loads_always. Qed.
-Print Assumptions C13_ts_server_loads_always.
-(* the TS client is left with two name-driven failures (a method called Constructor, a header whose
-   property name is not an identifier); without them every module loads *)
+Theorem C13_ts_routes_ok_always : forall sc fl, ts_routes_ok sc fl = true.
+Proof. exact ts_routes_ok_always. Qed.
+Print Assumptions C13_ts_routes_ok_always.
+(* hence the TS server module loads exactly when the annotation texts printed as bare property names
+   (discriminators, flatten_prefix ++ child name) are identifier names *)
+Theorem C13_ts_server_loads_iff_types : forall sc fl, ts_server_loads sc fl = ts_types_ok sc fl.
+Proof. exact ts_server_loads_iff_types. Qed.
+Print Assumptions C13_ts_server_loads_iff_types.
+Theorem C13_ts_prop_ok_app : forall p n,
+  ts_prop_ok p = true -> forallb ts_prop_char n = true -> ts_prop_ok (p ++ n) = true.
+Proof. exact ts_prop_ok_app. Qed.
+Theorem C13_ts_prop_bad_prefix : forall p n, p <> [] -> ts_prop_ok p = false -> ts_prop_ok (p ++ n) = false.
+Proof. exact ts_prop_bad_prefix. Qed.
+(* the TS modules are left with three name-driven failures (a method called Constructor, a header whose
+   property name is not an identifier, an annotation text printed as a bare property name); without them
+   every module loads *)
 Theorem C13_ts_loads_of_tags : forall sc, ts_tags sc = [] -> ts_loads sc = true.
 Proof. exact ts_loads_of_tags. Qed.
 Print Assumptions C13_ts_loads_of_tags.
@@ -76,6 +87,19 @@ Theorem C13_refuted_ts_client_header_property_not_identifier :
   let sc := hdr_schema [] ["X-1st"]%string [] in
   accepted sc = true /\ defects_C13 sc = [s "ts-client-header-property-not-identifier"] /\ ts_loads sc = false /\ go_vets sc Both = true.
 Proof. exact w_ts_header_prop. Qed.
+Theorem C13_refuted_ts_property_name_not_identifier :
+  let sc := ts_disc_schema "@type"%string in
+  accepted sc = true /\ defects_C13 sc = [s "ts-property-name-not-identifier"] /\ ts_loads sc = false /\
+  ts_server_loads sc (hd (file_of "" [] [] []) sc) = false /\ go_vets sc Both = true.
+Proof. exact w_ts_discriminator_prop. Qed.
+Theorem C13_refuted_ts_property_name_not_identifier_prefix :
+  let sc := ts_prefix_schema "home-"%string in
+  accepted sc = true /\ defects_C13 sc = [s "ts-property-name-not-identifier"] /\ ts_loads sc = false /\ go_vets sc Both = true.
+Proof. exact w_ts_prefix_prop. Qed.
+Example C13_ts_identifier_texts_load :
+  (let sc := ts_disc_schema "$kind_of"%string in accepted sc = true /\ defects_C13 sc = [] /\ ts_loads sc = true) /\
+  (let sc := ts_prefix_schema "home_"%string in accepted sc = true /\ defects_C13 sc = [] /\ ts_loads sc = true).
+Proof. split; [exact (proj1 ts_identifier_texts_load)|exact (proj1 (proj2 ts_identifier_texts_load))]. Qed.
 Theorem C13_refuted_method_named_generic : exists sc, refuted sc ["method-named-generic"%string] OnlyHttp ["type"%string].
 Proof. eexists. exact w_method_generic. Qed.
 Example C13_method_named_generic_last_builds :
